@@ -6,6 +6,7 @@ import (
 	_ "verif/mon/c02"
 	_ "verif/mon/c03"
 	_ "verif/mon/c04"
+	_ "verif/mon/c09"
 	_ "verif/mon/c10"
 	_ "verif/mon/c11"
 	_ "verif/mon/c12"
